@@ -17,6 +17,12 @@ WORK = os.path.join(VERIF, ".work")
 DRIVER = os.path.join(VERIF, "driver", "target", "release", "orca-facts")
 
 
+class AnchorInlined(Exception):
+    """A function a rule is anchored on no longer exists because its body was inlined into its caller(s) (the reviewed
+    tree's record of it and the callers' present bodies say so).  The clause the rule decides about that function cannot
+    be located any more: the rule reports it as undecided instead of failing or alarming."""
+
+
 class CheckError(Exception):
     """Fail-closed error: missing anchor, stale facts, extractor failure."""
 
@@ -522,7 +528,7 @@ def diverges(e):
     """expression never completes normally (panic!/todo!/unreachable!/return-less diverging call)"""
     if not isinstance(e, dict):
         return False
-    if e.get("ty") == "!":
+    if e.get("ty") == "!" or e.get("k") in ("Continue", "Break", "Ret"):
         return True
     if e.get("k") == "Block":
         if e.get("expr") is not None:
@@ -591,6 +597,36 @@ class Facts:
         except Exception:
             pass
         self.load_s = time.time() - t0
+
+    def _inlined_into(self, kw):
+        """names of the recorded callers whose present bodies contain (most of) the distinctive words of the recorded body
+        of the missing function — the signature of `inline function` refactoring; [] when there is no such evidence"""
+        table = self._anchor_table()
+        if not table:
+            return []
+        from vlib import canon
+        rows = [r_ for p_, r_ in (table.get("known_fns") or {}).items()
+                if r_.get("name") == kw["name"] and (kw.get("self_adt") is None or (r_.get("self_adt") or "").endswith(kw["self_adt"]))
+                and (kw.get("path_contains") is None or kw["path_contains"] in r_.get("path", ""))]
+        if len(rows) != 1 or rows[0].get("vis") == "pub":
+            return []
+        row = rows[0]
+        want = row.get("tokens") or {}
+        out = []
+        byp = {}
+        for f in getattr(self, "all_fns", self.fns):
+            if f["kind"] in ("Fn", "AssocFn"):
+                byp.setdefault(canon.nogen(f["path"]), f)
+        for cp in row.get("callers", []):
+            g = byp.get(cp)
+            if g is None or g.get("body") is None:
+                continue
+            have = canon.body_tokens(g)
+            tot = sum(want.values())
+            got = sum(min(n_, have.get(t_, 0)) for t_, n_ in want.items())
+            if tot == 0 or got >= 0.7 * tot:
+                out.append(g["path"].split("::")[-1])
+        return out
 
     def _anchor_table(self):
         try:
@@ -744,6 +780,10 @@ class Facts:
 
     def one_fn(self, **kw):
         fs = self.find_fns(**kw)
+        if len(fs) == 0 and kw.get("name"):
+            where = self._inlined_into(kw)
+            if where:
+                raise AnchorInlined("%s was inlined into %s" % (kw["name"], ", ".join(where)))
         if len(fs) != 1:
             raise CheckError("anchor function: expected exactly one match for %r, got %d (%s)" % (kw, len(fs), [f["path"] for f in fs][:6]))
         if getattr(self, "anchor_log", None) is not None:
